@@ -33,6 +33,29 @@ CLAIMED = {
              "to_lowercase enters only through ASCII letters; extraction, driver, harness, differ.",
         technique="Coq proof (list/segment lemmas) + exhaustive correspondence + law evaluation on the implementation",
         ref="§7 C15"),
+    "C19": dict(
+        text="Coq theorems, for every finite sequence and all indices in isize: drop and slice (mirrors with the `as usize` wraps written "
+             "out) equal their plain list definitions (slice under the statement's hypothesis left >= -len), empty/out-of-range slices are "
+             "empty, first/first_result/last_result/single/some/consume equal list semantics including error kinds, size = length, "
+             "to_bool is false exactly for \"\", \"0\" and casings of \"false\", trim_suffix removes one occurrence or nothing, "
+             "Option::has is equality, take_while_p yields the longest satisfying prefix and leaves the failing item. Tied by exhaustive "
+             "runs over lengths x index pairs x isize corners and multi-byte strings. Partial: the defer clause (exactly once, LIFO, on "
+             "every exit path) rests on Rust's drop order, which no Gallina model can exhibit; it is not yet exercised here.",
+        note="Trusted: Coq kernel; list model of double-ended iterators; ASCII model of to_lowercase validated over all scalars by "
+             "stream lowercase-scan; extraction, driver, harness, differ.",
+        technique="Coq proof (list arithmetic with lia) + exhaustive correspondence",
+        ref="§7 C19"),
+    "C07": dict(
+        text="Coq theorems: for every byte string and every sequence of read(n)/seek(Start|Current|End, off) with offsets anywhere in "
+             "u64/i64, the mirror of MemfsFile never panics and produces exactly the results and positions of the std::io::Cursor "
+             "specification; reads at/after the end return 0 bytes; a seek before the start is InvalidInput and leaves the position; for "
+             "every chunking of writes with flushes anywhere, a write handle persists exactly the written bytes and an append handle "
+             "old ++ written, at each flush and at drop; a handle whose file was removed creates nothing. Tied by exhaustive short op "
+             "sequences against Memfs, a real std::io::Cursor (validating the spec) and Stdfs files.",
+        note="Trusted: Coq kernel; Cursor spec validated against real std::io::Cursor; Rust drop semantics (Drop::drop runs once at "
+             "scope end) assumed; KF-C07-stdfs-far-seek recorded (kernel limit on file offsets); extraction, driver, harness, differ.",
+        technique="Coq proof (simulation with std::io::Cursor; invariant over write/flush histories) + exhaustive correspondence",
+        ref="§7 C07"),
 }
 
 NOT_APPLICABLE = {}
